@@ -26,6 +26,10 @@ def gen_c09(tier, rng):
                 for mode in ((2, 5, 6, 7, 8) if big else (6, 7, 8)):
                     for k in range(4 if big else 1):
                         out.append("\t".join(["mt", "stress", sink, str(n), str(min(r, 120) if mode == 8 else r), str(mode), str(rng.below(10 ** 6)), "asan"]))
+        # records longer than a page from one thread, short ones from the others
+        for n in ((2, 4, 8) if big else (2, 4)):
+            for k in range(3 if big else 1):
+                out.append("\t".join(["mt", "stress", sink, str(n), "3", "9", str(rng.below(10 ** 6)), "asan"]))
         for n in ((2, 4, 8) if big else (4,)):
             for r in ((100, 250) if big else (60,)):
                 for mode in (6, 7, 8):
